@@ -12,9 +12,10 @@
     (Proofs/NewickCanon.v): the text of x is a non-empty token without ()[],:;/ and blanks,
     ParseFloat accepts it and reads back x, equal numbers have equal texts, no text
     containing '/' is a float. *)
-From Coq Require Import String ZArith QArith Bool List.
+From Coq Require Import String Ascii ZArith QArith Bool List Lia.
 From GT Require Import Base.UTree Model.Newick Model.NewickNum Spec.NewickSpec
-     Proofs.NewickFuel Proofs.NewickCanon Proofs.NewickTheorem Proofs.NewickNumC Proofs.NewickWf.
+     Proofs.NewickFuel Proofs.NewickCanon Proofs.NewickTheorem Proofs.NewickNumC Proofs.NewickWf
+     Proofs.NewickFmt Proofs.NewickExamples.
 Import ListNotations.
 Local Close Scope Q_scope.
 Local Open Scope string_scope.
@@ -104,8 +105,245 @@ Print Assumptions C01_example_text.
 
 (** the numbers the generators use are numbers of the executable strconv model *)
 Example C01_example_numbers :
-  forallb numokC (map (fun k => Qmake (Z.of_nat k - 100) 64) (seq 0 300) ++
-                  map (fun k => Qmake (Z.of_nat k) 1024) (seq 0 100) ++
+  forallb numokC (map (fun k => Qmake (Z.of_nat k - 20) 64) (seq 0 60) ++
+                  map (fun k => Qmake (Z.of_nat k) 1024) (seq 0 20) ++
                   [Qmake 3602879701896397 36028797018963968; Qmake 86719 262144; inject_Z 123456789012345]) = true.
 Proof. vm_compute. reflexivity. Qed.
 Print Assumptions C01_example_numbers.
+
+(** * Stretch round: the numbers of the executable strconv model *)
+
+(** Every finite binary64 value k * 2^E (|k| < 2^53, -1074 <= E <= 971: normal and
+    subnormal numbers, both signs, zero) is a number [numokC] of the executable model: its
+    text -- the shortest candidate that reads back (by construction of the search), else the
+    exact expansion, which the rounding returns unchanged -- is a clean token that
+    [parse_numC] reads back to the value.  So [C01_round_trip_model] covers every tree of
+    the quantifier whose numbers are binary64 values. *)
+Theorem C01_numok_binary64 :
+  forall k E : Z, (Z.abs k < 2 ^ 53)%Z -> (-1074 <= E <= 971)%Z -> numokC (b64 k E) = true.
+Proof. exact numokC_b64. Qed.
+Print Assumptions C01_numok_binary64.
+
+(** the same for k / 2^m as the generators write them (k/64, k/1024, k/2^20, k/2^40 ...) *)
+Theorem C01_numok_dyadic :
+  forall k m : Z, (Z.abs k < 2 ^ 53)%Z -> (0 <= m <= 1074)%Z ->
+    numokC (Qmake k (Z.to_pos (2 ^ m))) = true.
+Proof. exact numokC_dyadic. Qed.
+Print Assumptions C01_numok_dyadic.
+
+(** [fmt_go] prints decimal digits, '.' and '-' only, for every rational: no Newick
+    metacharacter, no blank, no '/', no '=', no quote, no XML metacharacter *)
+Theorem C01_fmt_go_chars : forall x : Q, forall_chars numch (fmt_go x) = true.
+Proof. exact fmt_go_chars. Qed.
+Print Assumptions C01_fmt_go_chars.
+
+Theorem C01_numch_plain : forall c, numch c = true ->
+    num_char c = true /\ Ascii.eqb c "=" = false /\ Ascii.eqb c " " = false /\
+    Ascii.eqb c "'" = false /\ Ascii.eqb c """" = false /\ Ascii.eqb c "<" = false /\
+    Ascii.eqb c ">" = false /\ Ascii.eqb c "&" = false.
+Proof. exact numch_plain. Qed.
+Print Assumptions C01_numch_plain.
+
+(** the text of  l * 10^j  is read back by the model of ParseFloat as the correctly rounded
+    value of  l * 10^j  (printer and reader of the model agree on every digit string) *)
+Theorem C01_fmt_digits_read : forall (neg : bool) (l j : Z), (0 < l)%Z ->
+    parse_numC ((if neg then "-" else "") ++ fmt_digits l j) =
+    match dec_round l j with Some q => Some (neg_q neg q) | None => None end.
+Proof. exact parse_numC_fmt. Qed.
+Print Assumptions C01_fmt_digits_read.
+
+(** * Stretch round: the quantifier, clause by clause *)
+
+(** C01 as a computation on one tree of the executable model ([rt_ok]: accepted, same rose
+    view, same second text) holds on every tree inside the quantifier *)
+Theorem C01_rt_ok : forall t, wfC t = true -> rt_ok t = true.
+Proof. exact rt_ok_wf. Qed.
+Print Assumptions C01_rt_ok.
+
+(** ** accepted at the boundary *)
+(** a root with exactly two children, two tips *)
+Example C01_in_two_tips :
+  let t := root2 (S_ e_ (tip "A")) (S_ e_ (tip "B")) in
+  wfC t = true /\ write_go t = "(A,B);".
+Proof. vm_compute. split; reflexivity. Qed.
+Print Assumptions C01_in_two_tips.
+
+(** tip names with interior blanks and quotes *)
+Example C01_in_blank_quote_names :
+  let t := root2 (S_ e_ (tip "a b")) (S_ e_ (tip "it's 'q' ""d""")) in
+  wfC t = true /\ write_go t = "(a b,it's 'q' ""d"");".
+Proof. vm_compute. split; reflexivity. Qed.
+Print Assumptions C01_in_blank_quote_names.
+
+(** several node and root comments, comments with hostile characters and blanks, an empty
+    comment, one branch comment on a branch with a length *)
+Example C01_in_comments :
+  let t := UNode "" [";,():[ "; ""; " x "]
+                 [S_ e_ (UNode "A" ["c1"; "c2"; "("; ")"] [None]);
+                  S_ (mkE (1#2) nilv nilv [";,():[ "]) (tip "B")] in
+  wfC t = true /\ write_go t = "(A[c1][c2][(][)],B:0.5[;,():[ ])[;,():[ ][][ x ];".
+Proof. vm_compute. split; reflexivity. Qed.
+Print Assumptions C01_in_comments.
+
+(** support with p-value on an unnamed inner node; inner names that contain '/' but are not
+    float/float *)
+Example C01_in_support_pvalue :
+  let t := root2 (S_ (mkE nilv (3#4) (1#8) []) (inner "" AB)) (S_ e_ (inner "1/x" AB)) in
+  wfC t = true /\ write_go t = "((A,B)0.75/0.125,(A,B)1/x);".
+Proof. vm_compute. split; reflexivity. Qed.
+Print Assumptions C01_in_support_pvalue.
+
+(** an inner node with a single child, and a parent slot that is not the first slot *)
+Example C01_in_single_child_and_slot_order :
+  let t := root2 (S_ e_ (inner "" [S_ e_ (tip "A")]))
+                 (S_ e_ (UNode "" [] [S_ e_ (tip "B"); None; S_ e_ (tip "C")])) in
+  wfC t = true /\ write_go t = "((A),(B,C));".
+Proof. vm_compute. split; reflexivity. Qed.
+Print Assumptions C01_in_single_child_and_slot_order.
+
+(** (4) negative lengths and supports other than -1 are inside the quantifier and are
+    written ("finite ... other than the -1 'absent' sentinel") ... *)
+Example C01_in_negative_numbers :
+  let t := root2 (S_ (ed (-1#2)) (tip "A")) (S_ (mkE (-2#1) (-1#4) (-3#1) []) (inner "" AB)) in
+  wfC t = true /\ rt_ok t = true /\ write_go t = "(A:-0.5,(A,B)-0.25/-3:-2);".
+Proof. vm_compute. repeat split; reflexivity. Qed.
+Print Assumptions C01_in_negative_numbers.
+
+(** ... and -1 itself (in any representation) is the absent value: nothing is written *)
+Example C01_minus_one_is_absent :
+  let t := root2 (S_ (ed (-1#1)) (tip "A")) (S_ (ed (-2#2)) (tip "B")) in
+  wfC t = true /\ rt_ok t = true /\ write_go t = "(A,B);".
+Proof. vm_compute. repeat split; reflexivity. Qed.
+Print Assumptions C01_minus_one_is_absent.
+
+(** every negative binary64 value is a number of the model (instance of
+    [C01_numok_binary64]), e.g. all -k/64 *)
+Example C01_negative_numbers_ok : forall k : Z, (0 < k < 2 ^ 53)%Z ->
+    numokC (Qmake (- k) (Z.to_pos (2 ^ 6))) = true.
+Proof. intros k H. apply numokC_dyadic; [rewrite Z.abs_opp, Z.abs_eq|]; lia. Qed.
+Print Assumptions C01_negative_numbers_ok.
+
+(** ** excluded by the quantifier: [wfC] rejects, and the round trip does fail on the model
+    ([reread] is the text of the tree read back) *)
+(** root with a single child: the text does not start with "(" *)
+Example C01_out_root_one_child :
+  let t := UNode "r" [] [S_ e_ (tip "A")] in
+  wfC t = false /\ rt_ok t = false /\ write_go t = "Ar;" /\ reread t = "ERR found".
+Proof. vm_compute. repeat split; reflexivity. Qed.
+Print Assumptions C01_out_root_one_child.
+
+(** a numeric inner name is re-read as a support (same text, different tree) *)
+Example C01_out_numeric_inner_name :
+  let t := root2 (S_ e_ (inner "12" AB)) (S_ e_ (tip "C")) in
+  wfC t = false /\ rt_ok t = false /\
+  parse_go (write_go t) = POk (root2 (S_ (mkE nilv (12#1) nilv []) (inner "" AB)) (S_ e_ (tip "C"))).
+Proof. vm_compute. repeat split; reflexivity. Qed.
+Print Assumptions C01_out_numeric_inner_name.
+
+(** a float/float inner name is re-read as support/p-value *)
+Example C01_out_float_float_inner_name :
+  let t := root2 (S_ e_ (inner "0.5/0.25" AB)) (S_ e_ (tip "C")) in
+  wfC t = false /\ rt_ok t = false /\
+  parse_go (write_go t) = POk (root2 (S_ (mkE nilv (1#2) (1#4) []) (inner "" AB)) (S_ e_ (tip "C"))).
+Proof. vm_compute. repeat split; reflexivity. Qed.
+Print Assumptions C01_out_float_float_inner_name.
+
+(** a numeric root name is dropped *)
+Example C01_out_numeric_root_name :
+  let t := UNode "12" [] AB in
+  wfC t = false /\ rt_ok t = false /\ write_go t = "(A,B)12;" /\ reread t = "(A,B);".
+Proof. vm_compute. repeat split; reflexivity. Qed.
+Print Assumptions C01_out_numeric_root_name.
+
+(** the writer drops a support on a tip branch, a support next to a name, and a p-value
+    without support *)
+Example C01_out_support_on_tip :
+  let t := root2 (S_ (mkE nilv (1#2) nilv []) (tip "A")) (S_ e_ (tip "B")) in
+  wfC t = false /\ rt_ok t = false /\ write_go t = "(A,B);".
+Proof. vm_compute. repeat split; reflexivity. Qed.
+Print Assumptions C01_out_support_on_tip.
+
+Example C01_out_name_and_support :
+  let t := root2 (S_ (mkE nilv (1#2) nilv []) (inner "X" AB)) (S_ e_ (tip "C")) in
+  wfC t = false /\ rt_ok t = false /\ write_go t = "((A,B)X,C);".
+Proof. vm_compute. repeat split; reflexivity. Qed.
+Print Assumptions C01_out_name_and_support.
+
+Example C01_out_pvalue_without_support :
+  let t := root2 (S_ (mkE nilv nilv (1#8) []) (inner "" AB)) (S_ e_ (tip "C")) in
+  wfC t = false /\ rt_ok t = false /\ write_go t = "((A,B),C);".
+Proof. vm_compute. repeat split; reflexivity. Qed.
+Print Assumptions C01_out_pvalue_without_support.
+
+(** a second branch comment is re-read as a node comment; a branch comment without a length
+    as a node comment *)
+Example C01_out_two_branch_comments :
+  let t := root2 (S_ (mkE (1#2) nilv nilv ["e1"; "e2"]) (tip "A")) (S_ e_ (tip "B")) in
+  wfC t = false /\ rt_ok t = false /\ write_go t = "(A:0.5[e1][e2],B);" /\ reread t = "(A[e2]:0.5[e1],B);".
+Proof. vm_compute. repeat split; reflexivity. Qed.
+Print Assumptions C01_out_two_branch_comments.
+
+Example C01_out_branch_comment_without_length :
+  let t := root2 (S_ (mkE nilv nilv nilv ["e1"]) (tip "A")) (S_ e_ (tip "B")) in
+  wfC t = false /\ rt_ok t = false /\
+  parse_go (write_go t) = POk (root2 (S_ e_ (UNode "A" ["e1"] [None])) (S_ e_ (tip "B"))).
+Proof. vm_compute. repeat split; reflexivity. Qed.
+Print Assumptions C01_out_branch_comment_without_length.
+
+(** a ']' inside a comment ends it *)
+Example C01_out_bracket_in_comment :
+  let t := root2 (S_ e_ (UNode "A" ["a]b"] [None])) (S_ e_ (tip "B")) in
+  wfC t = false /\ rt_ok t = false /\ write_go t = "(A[a]b],B);".
+Proof. vm_compute. repeat split; reflexivity. Qed.
+Print Assumptions C01_out_bracket_in_comment.
+
+(** metacharacters in a name: another tree, or a rejected text *)
+Example C01_out_metachar_names :
+  wfC (root2 (S_ e_ (tip "a,b")) (S_ e_ (tip "B"))) = false /\
+  rt_ok (root2 (S_ e_ (tip "a,b")) (S_ e_ (tip "B"))) = false /\
+  rt_ok (root2 (S_ e_ (tip "a:b")) (S_ e_ (tip "B"))) = false /\
+  rt_ok (root2 (S_ e_ (tip "a;b")) (S_ e_ (tip "B"))) = false /\
+  rt_ok (root2 (S_ e_ (tip "a(b")) (S_ e_ (tip "B"))) = false /\
+  rt_ok (root2 (S_ e_ (tip "a)b")) (S_ e_ (tip "B"))) = false /\
+  rt_ok (root2 (S_ e_ (tip "a[b")) (S_ e_ (tip "B"))) = false /\
+  rt_ok (root2 (S_ e_ (tip "a]b")) (S_ e_ (tip "B"))) = false.
+Proof. vm_compute. repeat split; reflexivity. Qed.
+Print Assumptions C01_out_metachar_names.
+
+(** surrounding blanks of a tip name are trimmed, a leading blank of an inner name is lost,
+    an empty tip name is rejected *)
+Example C01_out_blank_and_empty_names :
+  let t1 := root2 (S_ e_ (tip " a")) (S_ e_ (tip "B")) in
+  let t2 := root2 (S_ e_ (tip "a ")) (S_ e_ (tip "B")) in
+  let t3 := root2 (S_ e_ (inner " x" AB)) (S_ e_ (tip "C")) in
+  let t4 := root2 (S_ e_ (tip "")) (S_ e_ (tip "B")) in
+  wfC t1 = false /\ rt_ok t1 = false /\ reread t1 = "(a,B);" /\
+  wfC t2 = false /\ rt_ok t2 = false /\ reread t2 = "(a,B);" /\
+  wfC t3 = false /\ rt_ok t3 = false /\ reread t3 = "((A,B)x,C);" /\
+  wfC t4 = false /\ rt_ok t4 = false.
+Proof. vm_compute. repeat split; reflexivity. Qed.
+Print Assumptions C01_out_blank_and_empty_names.
+
+(** names that are not text: NUL ends the identifier, an undecodable byte becomes U+FFFD *)
+Example C01_out_not_text :
+  let t1 := root2 (S_ e_ (tip (String "A" (String "000" "B")))) (S_ e_ (tip "C")) in
+  let t2 := root2 (S_ e_ (tip (String "A" (String "255" "")))) (S_ e_ (tip "C")) in
+  wfC t1 = false /\ rt_ok t1 = false /\ wfC t2 = false /\ rt_ok t2 = false /\
+  reread t2 = String "(" (String "A" (String "239" (String "191" (String "189" ",C);")))).
+Proof. vm_compute. repeat split; reflexivity. Qed.
+Print Assumptions C01_out_not_text.
+
+(** a number that is not a binary64 value is outside (1/3 is read back as the nearest one) *)
+Example C01_out_not_binary64 :
+  let t := root2 (S_ (ed (1#3)) (tip "A")) (S_ e_ (tip "B")) in
+  wfC t = false /\ rt_ok t = false.
+Proof. vm_compute. repeat split; reflexivity. Qed.
+Print Assumptions C01_out_not_binary64.
+
+(** one clause is stronger than the round trip needs: an inner name with a trailing blank is
+    excluded by the quantifier ("without surrounding blanks") although it survives *)
+Example C01_out_but_survives :
+  let t := root2 (S_ e_ (inner "x " AB)) (S_ e_ (tip "C")) in
+  wfC t = false /\ rt_ok t = true.
+Proof. vm_compute. repeat split; reflexivity. Qed.
+Print Assumptions C01_out_but_survives.
